@@ -263,19 +263,24 @@ def run_case(rec, k):
         a = A(larr, unit=UNITSTR[lu])
         sa = snapshot(a)
         nd = np.array([2.0, 4.0]) if c["ls"] != "s0" and SHAPE[c["ls"]][-1] == 2 else np.array(2.0)
-        fn = {"neg": lambda: -a, "pow2": lambda: a ** 2, "pow2nd": lambda: (a ** np.array(2) if k % 2 else np.power(a, np.array(2))), "pow3": lambda: a ** 3, "pow0": lambda: a ** 0, "powm1": lambda: a ** -1, "powm2": lambda: a ** -2,
+        fn = {"neg": lambda: -a, "pow2": lambda: a ** 2, "pow2nd": lambda: (a ** np.array(2) if k % 2 else np.power(a, np.array(2))), "pow3": lambda: a ** 3, "pow2q": lambda: a ** (2 * osyris.units("dimensionless")), "pow3a": lambda: a ** A(3.0 if k % 2 else 3),
+              "powdim": lambda: a ** A(2.0, unit="s"), "pow0": lambda: a ** 0, "powm1": lambda: a ** -1, "powm2": lambda: a ** -2,
               "sqrt": lambda: (a ** 0.5 if k % 2 else np.sqrt(a)), "rmul2": lambda: 2 * a, "rmulf": lambda: 0.5 * a, "rdiv2": lambda: 2 / a, "rdivf": lambda: 0.5 / a,
               "rdivnd": lambda: nd / a, "rmulnd": lambda: nd * a, "invert": lambda: ~a}[op]
         try:
             res = fn()
         except Exception as e:
+            if o.get("raises"):
+                return ("match", None, {}) if same_snapshot(sa, snapshot(a)) else ("mismatch", "the operand was modified by the refused operation", {})
             return "mismatch", f"spec: returns a result, implementation raised {type(e).__name__}: {e}", {}
+        if o.get("raises"):
+            return "mismatch", f"spec: refuses ({o.get('why')}), implementation returned {res!r}", {}
         if not same_snapshot(sa, snapshot(a)):
             return "mismatch", "the operand was modified by the operation", {}
         ndv = [F(2), F(4)] if nd.shape else [F(2)]
         n = len(lvals)
         ndb = [ndv[i % len(ndv)] for i in range(n)]
-        exp = {"neg": [-v for v in lvals], "pow2": [v ** 2 for v in lvals], "pow2nd": [v ** 2 for v in lvals], "pow3": [v ** 3 for v in lvals], "pow0": [F(1)] * n,
+        exp = {"neg": [-v for v in lvals], "pow2": [v ** 2 for v in lvals], "pow2nd": [v ** 2 for v in lvals], "pow3": [v ** 3 for v in lvals], "pow2q": [v ** 2 for v in lvals], "pow3a": [v ** 3 for v in lvals], "powdim": None, "pow0": [F(1)] * n,
                "powm1": [1 / v for v in lvals] if op == "powm1" else None, "powm2": [1 / v ** 2 for v in lvals] if op == "powm2" else None,
                "sqrt": roots if op == "sqrt" else None, "rmul2": [2 * v for v in lvals], "rmulf": [v / 2 for v in lvals],
                "rdiv2": [2 / v for v in lvals] if op == "rdiv2" else None, "rdivf": [F(1, 2) / v for v in lvals] if op == "rdivf" else None,
